@@ -268,7 +268,8 @@ func owns(p string, f finding) bool {
 		// lock-step of the grid buffer against the model under the grid policy: together with the
 		// span buffer's agreement with the same model (all other checks) a content divergence
 		// here separates the two buffers
-		return strings.Contains(f.Tags, "") && f.Grid && content
+		// … and the grid buffer's own arrays against the array-level model (clause Q)
+		return (strings.Contains(f.Tags, "") && f.Grid && content) || hasProj(proj, "Q")
 	}
 	return false
 }
